@@ -104,6 +104,7 @@ ITEMS = {
     # pack formats without a byte-order character use the host's native sizes (l / L are 8 bytes on LP64)
     'packL_native': ['pack L 7'], 'packl_native': ['pack l -7'], 'packI_native': ['pack I 7'], 'packq_eq': ['pack =q 1'],
     'li_clui': ['li x10 0x5004'], 'li_clui_neg': ['li x9 -4103'], 'lui_hi_lit': ['lui x11 %hi(0x5004)', 'addi x11 x11 %lo(0x5004)'],
+    'string_trail': ['string ab  '], 'string_lead': ['string   ab'], 'string_hash': ['string a #b'],
     'pack_pad': ['pack <2xH 0x1234'], 'pack_pad_lead': ['pack <xB 1', 'dh 2'], 'pack_pad_trail': ['pack <H2x 5'], 'pack_net': ['pack !H 0x1234'], 'pack_eqI': ['pack =I 7'],
     'auipc_ret': ['auipc x10 0', 'ret'], 'auipc_jalr': ['auipc x6 16', 'jalr x0 x6 0'], 'auipc_jr': ['auipc x5 0', 'jr x5'],
 }
@@ -113,7 +114,7 @@ def data_align():
     """every data item kind followed by aligns of several sizes (the align sees the position the sizes add up to)"""
     out = []
     data = ['dh', 'db2', 'dw', 'dd', 'bytes', 'shorts', 'ints', 'longs', 'longlongs', 'string', 'string_u', 'packh', 'packQ',
-            'packL_native', 'packl_native', 'packq_eq', 'longs_neg', 'longlongs_neg', 'pack_pad', 'pack_pad_lead', 'pack_pad_trail', 'pack_net', 'pack_eqI']
+            'packL_native', 'packl_native', 'packq_eq', 'longs_neg', 'longlongs_neg', 'pack_pad', 'pack_pad_lead', 'pack_pad_trail', 'pack_net', 'pack_eqI', 'string_trail', 'string_lead', 'string_hash']
     for name in data:
         item = ITEMS[name]
         out.append(('dal_' + name, item + ['align 8', 'L1:', 'dw L1'] + item + ['db 1', 'align 3', 'L2:', 'dw L2', 'align 16', 'L3:', 'dd L3']))
